@@ -23,8 +23,11 @@ theorem beVal_beBytes (k n : Nat) (h : n < 256 ^ k) : beVal (beBytes k n) = n :=
 
 theorem splitAt?_append (k : Nat) (a r : Bytes) (h : a.length = k) :
     splitAt? k (a ++ r) = some (a, r) := by
-  subst h
-  simp [splitAt?]
+  induction a generalizing k with
+  | nil => subst h; simp [splitAt?]
+  | cons x a ih =>
+    subst h
+    simp [splitAt?, ih a.length rfl]
 
 theorem splitNul_append (a r : Bytes) (h : a.contains 0 = false) :
     splitNul (a ++ 0 :: r) = some (a, r) := by
